@@ -141,7 +141,8 @@ class Bench:
             if self.in_src == i:
                 return  # resumes inside the source: the source logs what happens
             if self.delivered[i] and self.lock is not None:
-                queued = any(t is who for t, _ in self.lock._waiters)
+                # (statistics only; tolerant of a different private layout of the lock)
+                queued = any(t is who for t, _ in getattr(self.lock, "_waiters", ()))
                 k = "cancelled_waiter_removes_itself" if queued else "cancelled_waiter_dropped_by_release"
                 self.notes[k] = self.notes.get(k, 0) + 1
             self.open[i] = self.emit_ev(i, f"step {i}")
@@ -301,7 +302,7 @@ class Bench:
         loop = asyncio.get_running_loop()
         its = ai.tee(self.source(), self.n)
         if self.n:
-            self.lock = its[0]._state.lock
+            self.lock = getattr(getattr(its[0], "_state", None), "lock", None)
         gate: list = [None] * self.n
         for i in range(self.n):
             t = loop.create_task(self.consumer(i, its[i], gate))
